@@ -174,6 +174,7 @@ func inRange(code int32, lo, hi log.Level) bool { return code >= lo.Code() && co
 
 func cmdLevels(f hx.Flags, r *hx.Result) {
 	defer rootAcrossGenerations(r) // the root logger's level range is the live configuration's too
+	defer blockOverflowDelivery(r)
 	rng := hx.Rand(1)
 	console := sys.InstallConsole()
 	ctx := context.Background()
@@ -265,7 +266,13 @@ func cmdLevels(f hx.Flags, r *hx.Result) {
 			if strings.HasSuffix(kind, "Layout") {
 				extra["layout.type"] = []string{"TextLayout", "JSONLayout"}[n%2]
 			}
-			cfg.AddLogger("lg", typ, lrs, "tag_c01", refs, rng.Intn(2) == 0, extra)
+			if n%5 == 2 {
+				// the same logger configured as the root: the tag is listed nowhere and is served by it
+				cfg.AddLogger("root", typ, lrs, "\x00", refs, rng.Intn(2) == 0, extra)
+				desc["as_root"] = true
+			} else {
+				cfg.AddLogger("lg", typ, lrs, "tag_c01", refs, rng.Intn(2) == 0, extra)
+			}
 			rl := make([]string, len(refs))
 			for i := range refs {
 				rl[i] = refs[i].Level
@@ -482,4 +489,64 @@ func effStr(m []log.Level, r lvRange) string {
 		return fmt.Sprint(r)
 	}
 	return "[" + m[r.Min].Name() + "," + m[r.Max].Name() + ")"
+}
+
+// blockOverflowDelivery: an event that had to wait for space (policy Block, full buffer) is an event like any other:
+// it reaches the appender exactly once, at its own level.
+func blockOverflowDelivery(r *hx.Result) {
+	lg, gate, err := gatedLogger(log.BufferFullPolicyBlock)
+	if err != nil {
+		r.SetInfra("blockOverflowDelivery: %v", err)
+		return
+	}
+	done := make(chan struct{})
+	go func() {
+		e := log.GetEvent()
+		e.Level, e.Time, e.Tag = log.ErrorLevel, time.Now(), "load"
+		e.Fields = []log.Field{log.Int("id", 102)}
+		lg.Append(e) // waits for space
+		close(done)
+	}()
+	time.Sleep(100 * time.Millisecond)
+	desc := map[string]any{"logger": "AsyncLogger, policy Block, buffer full when the event was logged"}
+	// the worker finishes exactly one item: one slot becomes free, the waiting call is admitted behind 100 others
+	select {
+	case gate.Gate <- struct{}{}:
+	case <-time.After(8 * time.Second):
+		r.SetInfra("blockOverflowDelivery: the worker is not waiting at the gate")
+		return
+	}
+	select {
+	case <-done:
+	case <-time.After(8 * time.Second):
+		r.Violate("log-call-blocked:async", desc, "the waiting log call did not return after a slot became free")
+		close(gate.Gate)
+		return
+	}
+	// ... and a second event right behind it, at another level
+	e := log.GetEvent()
+	e.Level, e.Time, e.Tag = log.WarnLevel, time.Now(), "load"
+	e.Fields = []log.Field{log.Int("id", 103)}
+	done2 := make(chan struct{})
+	go func() { lg.Append(e); close(done2) }()
+	time.Sleep(20 * time.Millisecond)
+	close(gate.Gate)
+	select {
+	case <-done2: // no log call is in progress when Stop is called
+	case <-time.After(8 * time.Second):
+		r.Violate("log-call-blocked:async", desc, "the second waiting log call did not return after the worker was released")
+		return
+	}
+	if ret, p := hx.Within(15*time.Second, func() { lg.Stop() }); !ret || p != nil {
+		r.Violate("log-call-blocked:async", desc, "Stop returned=%v panic=%v", ret, p)
+		return
+	}
+	r.Eval(2)
+	got := map[int64][]string{}
+	for _, rc := range gate.Recs() {
+		got[rc.ID] = append(got[rc.ID], rc.Level)
+	}
+	if fmt.Sprint(got[102]) != "[ERROR]" || fmt.Sprint(got[103]) != "[WARN]" || len(got[-1]) > 0 {
+		r.Violate("missing:async-block-overflow", desc, "events 102 (ERROR) and 103 (WARN) arrived as %v / %v, records without id: %d", got[102], got[103], len(got[-1]))
+	}
 }
